@@ -36,6 +36,8 @@ for _pid, _text, _ref in [
  ("C03", "EXTINF / part durations against the media time between boundary units, PROGRAM-DATE-TIME against the wall clock written with the boundary unit, TARGETDURATION / PART-TARGET / PART-HOLD-BACK / CAN-SKIP-UNTIL relations, target duration monotone", "7 C03"),
  ("C04", "pairwise evolution of successive playlists of each stream (media sequence monotone, same MSN same entry, tail append / head removal, at most SegmentCount, URI number = MSN, part ids consecutive over the whole history, parts only under the last two segments, preload hint = next part) and agreement between streams", "7 C04"),
  ("C05", "every URI ever listed is probed after every Write: listed ones resolve with the proper type and identical bytes, segment = concatenation of parts, fragment sequence number = part id, URIs outside the window never return media", "7 C05"),
+ ("C16", "the multivariant playlist after every Write against the track list and the current parameter generation: one variant whose URI is the leading stream, query preserved, CODECS = one RFC 6381 string per distinct track codec of the current generation, RESOLUTION / FRAME-RATE of the current generation, one AUDIO rendition per non-leading audio stream (name, language, URI unless leading), exactly one DEFAULT (marked, else first), BANDWIDTH >= AVERAGE-BANDWIDTH > 0 and = peak / mean bit rate for single-stream muxers", "7 C16"),
+ ("C19", "constant-rate LL streams over the frame-rate x PartMinDuration x SegmentMinDuration x key-frame-spacing grid (video-led with audio of odd rates starting late, audio-only AAC / Opus): all non-final parts have one duration D, 0.85 PART-TARGET <= D <= PART-TARGET of the same playlist, D >= PartMinDuration, D < 2 max(PartMin, sd) + sd, PART-TARGET stable", "7 C19"),
  ("C18", "at most SegmentCount listed, directory holds only listed + open segment files, expired segment/part URIs stop resolving, payload per published segment <= SegmentMaxSize over long histories (hundreds/thousands of rotations)", "7 C18"),
 ]:
     CLAIMED[_pid] = dict(cat="model_checking", text=_text, note=MUX_NOTE, technique=MUX_TECH, ref=_ref)
